@@ -44,6 +44,7 @@ structure Tgt where
   nextTick : Nat                      -- absolute time of the next ticker tick
   tickBuf  : Bool := false            -- a tick is waiting in the ticker channel
   signaled : Bool := false            -- becameHealthy closed
+  everOk   : Bool := false            -- ghost (no counterpart in the code or the output): some probe of this target succeeded
   interval : Nat
   hcTimeout : Nat
 deriving Repr
@@ -244,6 +245,7 @@ def probeComplete (w : World) (tid : Nat) (success : Bool) : World :=
   | none => w
   | some t =>
     let (t', changed, became) := probeUpdate t success
+    let t' := { t' with everOk := t'.everOk || success }
     if w.armed.contains "probe.updated" then setT w { t' with loop := .parked changed became }
     else if changed then probeNotify (setT w { t' with loop := .idle }) tid became
     else setT w { t' with loop := .idle }
